@@ -82,6 +82,7 @@ fn one(ctx: &Ctx, rep: &mut Report, id: usize, cfg: Cfg, vc: ValueClass, pc: Pro
     };
     rep.count("proofs", 1);
     // every mode, private and public statement, identically initialised transcript
+    let mut failed = false;
     for (st, who) in [(case.statement(), "private"), (case.statement_public(), "public")] {
         for action in ACTIONS {
             <P as Gx>::probe_arm();
@@ -96,10 +97,12 @@ fn one(ctx: &Ctx, rep: &mut Report, id: usize, cfg: Cfg, vc: ValueClass, pc: Pro
                         &format!("honest proof rejected ({who} statement, {}): {e}", action_name(action)),
                         replay.clone(),
                     );
+                    failed = true;
                     continue;
                 },
                 Err(p) => {
                     rep.violation(&format!("C01 verify-panic {sig_cfg}"), &format!("verifier panicked on an honest proof: {p}"), replay.clone());
+                    failed = true;
                     continue;
                 },
             }
@@ -117,6 +120,9 @@ fn one(ctx: &Ctx, rep: &mut Report, id: usize, cfg: Cfg, vc: ValueClass, pc: Pro
                 }
             }
         }
+    }
+    if failed {
+        return;
     }
     // the same bytes through the codec (zero-round proofs cannot be decoded: that is C15's known finding)
     if cfg.mn() > 1 {
